@@ -138,9 +138,8 @@ func runResume(c *vh.Ctx, p *hs.PKI, rc resumeCase, debug bool) {
 			c.Count("server-declined")
 			return
 		}
-		obs := fmt.Sprintf("(mkObs %s %d %d %d %d %s)", vh.Bool(completed), hs.ClientAlert(r2), st.Version, st.CipherSuite, r2.ClientCurve, vh.Str(st.NegotiatedProtocol))
+		obs := hs.ObsTermFinal(r2)
 		term = fmt.Sprintf("(CRun %s %s %s %s %s %s)", vh.Bool(hs.TreeFixed()), hs.ViewTermSess(r2, sess), r2.KeyShape, hs.WireTerm(w2), fl, obs)
-		_ = obs
 	} else {
 		sess := "None"
 		if len(w2.SessionTicket) > 0 {
@@ -148,7 +147,7 @@ func runResume(c *vh.Ctx, p *hs.PKI, rc resumeCase, debug bool) {
 		}
 		alpn, _ := hs.NegotiatedALPN(alpnPrefs, w2.ALPN)
 		fl := hs.Flight12FromSeen(r2, alpn, uint16(r2.Trace.Group))
-		term = fmt.Sprintf("(CRunSess %s %s %s %s %s %s %s %s %s)", vh.Bool(hs.TreeFixed()), hs.ViewTerm(r2), r2.KeyShape, hs.WireTerm(w2), sess, vh.Bool(w2.HasEMS), fl, hs.ObsTerm(r2), vh.Bool(st.DidResume))
+		term = fmt.Sprintf("(CRunSess %s %s %s %s %s %s %s %s %s)", vh.Bool(hs.TreeFixed()), hs.ViewTerm(r2), r2.KeyShape, hs.WireTerm(w2), sess, vh.Bool(w2.HasEMS), fl, hs.ObsTermFinal(r2), vh.Bool(st.DidResume))
 	}
 	c.Case(rc.kind, term, key, true, map[string]any{"kind": rc.kind, "client": rc.name, "completed": completed, "resumed": st.DidResume,
 		"suite": st.CipherSuite, "client_error": errStr(r2.ClientErr)})
